@@ -14,6 +14,9 @@ SRV_TRUST = ["in-memory MongoDB wire-protocol server (harness/fakemongo) standin
 API = [("api-counter", {"quick": ["-n", "60"], "thorough": ["-n", "3000"], "search": ["-n", "1000"]}),
        ("api-map", {"quick": ["-n", "100"], "thorough": ["-n", "4000"], "search": ["-n", "1500"]}),
        ("api-list", {"quick": ["-n", "100"], "thorough": ["-n", "4000"], "search": ["-n", "1500"]})]
+CONC = [("conc-counter", {"quick": ["-n", "60"], "thorough": ["-n", "3000"], "search": ["-n", "600"]}),
+        ("conc-map", {"quick": ["-n", "60"], "thorough": ["-n", "3000"], "search": ["-n", "600"]}),
+        ("conc-list", {"quick": ["-n", "60"], "thorough": ["-n", "3000"], "search": ["-n", "600"]})]
 PROPS = {
     "C14": {"slices": [("codec", {"quick": ["-n", "1500"], "thorough": ["-n", "60000"], "search": ["-n", "8000"]})],
             "trusted": ["encoding/json, google.golang.org/protobuf and mongo-driver/bson byte formats: exercised (every case goes through all three), not modelled",
@@ -28,6 +31,8 @@ PROPS = {
             "assumptions": ["the recovery half (C08_statement_list) is a definition, not yet a theorem", "handlers of one datatype run one at a time"]},
     "C06": {"slices": WIRE + WIREF, "trusted": SRV_TRUST, "assumptions": ["handlers of one datatype run one at a time (the lock, C12)", "no storage fault during the request (C08)"]},
     "C11": {"slices": WIRE + WIRED, "trusted": SRV_TRUST, "assumptions": ["snapshot updates of one datatype run one at a time (their TryLock; a racing update is skipped)", "Document snapshots are compared by the replay oracle only, not modelled"]},
+    "C20": {"slices": CONC, "trusted": ["the Go scheduler: the schedules explored by the stress slices are those the runtime happens to produce under randomized yields (2..8 goroutines, 16 cores); the theorem quantifies over all schedules of the model, the slices sample schedules of the code"],
+            "assumptions": ["Model/Conc.v is a hand transcription of BeginTransaction/EndTransaction/unlock (statement-level atomic steps, sequentially consistent memory)", "data-race freedom in the sense of the Go memory model is not claimed (Rollback rewrites metadata a concurrent pack builder reads)", "Document is not driven by the concurrent slices"]},
     "C13": {"slices": WIRE, "trusted": SRV_TRUST, "assumptions": ["handlers of one datatype run one at a time"]},
     "C16": {"slices": WIRE, "trusted": SRV_TRUST, "assumptions": ["liveness of the Go code (no hang, no crash) is tested, not proved"]},
     "C17": {"slices": WIRE, "trusted": SRV_TRUST, "assumptions": ["ResetCollection is not modelled yet"]},
